@@ -11,7 +11,11 @@ to_project_* spec AST -> the harness's projection encoding of the real AST (harn
 from fractions import Fraction
 
 SCALAR = {"a": "a", "b": "b", "c": "c", "d": "d", "e2": "é", "f2": "ß", "u3": "€", "v3": "中",
-          "s4": "\U0001F600", "t4": "\U0001D11E", "sp": " "}
+          "s4": "\U0001F600", "t4": "\U0001D11E", "sp": " ",
+          # GenColl: upper-case images, separators, digits and the letters of true / false (f-strings)
+          "A": "A", "B": "B", "C": "C", "D": "D", "E2": "É", "S": "S", "s": "s", "cm": ",", "da": "-",
+          "t": "t", "r": "r", "u": "u", "e": "e", "f": "f", "l": "l",
+          "0": "0", "1": "1", "2": "2", "3": "3", "4": "4", "5": "5", "6": "6", "7": "7", "8": "8", "9": "9"}
 
 
 def scalars_to_str(seq):
@@ -90,6 +94,29 @@ def render_expr(e):
         return f"{render_expr(e['recv'])}.{e['name']}(" + ", ".join(render_expr(a) for a in e["args"]) + ")"
     if k == "ctor":
         return f"{e['name']}{{N}}(" + ", ".join(f"{n}={render_expr(v)}" for n, v in zip(e["fnames"], e["args"])) + ")"
+    if k == "tuple":
+        return "(" + ", ".join(render_expr(a) for a in e["items"]) + ("," if len(e["items"]) == 1 else "") + ")"
+    if k == "tfield":
+        return f"{render_expr(e['obj'])}.{e['idx']}"
+    if k == "dict":
+        return "{" + ", ".join(f"{render_expr(a)}: {render_expr(b)}" for a, b in zip(e["keys"], e["vals"])) + "}"
+    if k == "listcomp":
+        c = f" if {render_expr(e['cond'][0])}" if e["cond"] else ""
+        return f"[{render_expr(e['elem'])} for {e['var']} in {render_expr(e['iter'])}{c}]"
+    if k == "dictcomp":
+        c = f" if {render_expr(e['cond'][0])}" if e["cond"] else ""
+        return "{" + f"{render_expr(e['key'])}: {render_expr(e['val'])} for {e['var']} in {render_expr(e['iter'])}{c}" + "}"
+    if k == "closure":
+        return "(" + ", ".join(e["params"]) + ") => " + render_expr(e["body"])
+    if k == "callv":
+        return f"{e['f']}(" + ", ".join(render_expr(a) for a in e["args"]) + ")"
+    if k == "range":
+        return "range(" + ", ".join(render_expr(a) for a in e["args"]) + ")"
+    if k == "fstr":
+        out = ""
+        for p in e["parts"]:
+            out += scalars_to_str(p["sv"]) if p["pk"] == "s" else "{" + render_expr(p["e"]) + "}"
+        return 'f"' + out + '"'
     raise ValueError(f"render_expr: unknown kind {k}")
 
 
@@ -170,6 +197,8 @@ def render_stmt(s, ind):
         return [f"{pad}while {render_expr(s['cond'])}:"] + render_block(s["body"], ind + 1)
     if k == "for":
         return [f"{pad}for {s['var']} in {render_expr(s['iter'])}:"] + render_block(s["body"], ind + 1)
+    if k == "setidx":
+        return [f"{pad}{s['name']}[{render_expr(s['idx'])}] = {render_expr(s['e'])}"]
     if k == "matchs":
         out = [f"{pad}match {render_expr(s['subj'])}:"]
         for a in s["arms"]:
@@ -240,6 +269,38 @@ def to_project_expr(e):
         return {"k": "lit", "lk": "none"}
     if k == "try":
         return {"k": "try", "e": to_project_expr(e["e"])}
+    if k == "tuple":
+        return {"k": "tuple", "items": [to_project_expr(a) for a in e["items"]]}
+    if k == "tfield":
+        return {"k": "fieldx", "obj": to_project_expr(e["obj"]), "field": str(e["idx"])}
+    if k == "dict":
+        return {"k": "dict", "pairs": [{"key": to_project_expr(a), "val": to_project_expr(b)} for a, b in zip(e["keys"], e["vals"])]}
+    if k == "mcall":
+        return {"k": "mcall", "recv": to_project_expr(e["recv"]), "name": e["name"],
+                "args": [{"ak": "pos", "e": to_project_expr(a)} for a in e["args"]]}
+    if k == "listcomp":
+        return {"k": "listcomp", "e": to_project_expr(e["elem"]), "var": e["var"], "iter": to_project_expr(e["iter"]),
+                "filter": P_opt(e["cond"], to_project_expr)}
+    if k == "dictcomp":
+        return {"k": "dictcomp", "key": to_project_expr(e["key"]), "val": to_project_expr(e["val"]), "var": e["var"],
+                "iter": to_project_expr(e["iter"]), "filter": P_opt(e["cond"], to_project_expr)}
+    if k == "closure":
+        return {"k": "closure", "params": [{"k": "param", "mut": False, "name": p, "ty": {"k": "tsimple", "name": "_"}, "default": []} for p in e["params"]],
+                "e": to_project_expr(e["body"])}
+    if k in ("callv", "range"):
+        return {"k": "call", "f": {"k": "ident", "name": e["f"] if k == "callv" else "range"},
+                "args": [{"ak": "pos", "e": to_project_expr(a)} for a in e["args"]]}
+    if k == "fstr":
+        parts = []
+        for p in e["parts"]:
+            if p["pk"] == "s":
+                if parts and parts[-1]["pk"] == "lit":
+                    parts[-1]["sv"] += scalars_to_str(p["sv"])
+                else:
+                    parts.append({"pk": "lit", "sv": scalars_to_str(p["sv"])})
+            else:
+                parts.append({"pk": "expr", "e": to_project_expr(p["e"])})
+        return {"k": "fstr", "parts": parts}
     if k == "match":
         guarded = any(a["guard"] for a in e["arms"])     # rendered in `case` form: the parser stores `case p: e` as a one-statement block
         return {"k": "match", "subj": to_project_expr(e["subj"]),
@@ -304,6 +365,8 @@ def to_project_stmt(s):
         return {"k": "while", "cond": to_project_expr(s["cond"]), "body": to_project_block(s["body"])}
     if k == "for":
         return {"k": "for", "var": s["var"], "iter": to_project_expr(s["iter"]), "body": to_project_block(s["body"])}
+    if k == "setidx":
+        return {"k": "iassign", "obj": {"k": "ident", "name": s["name"]}, "idx": to_project_expr(s["idx"]), "e": to_project_expr(s["e"])}
     if k == "matchs":
         return {"k": "expr", "e": {"k": "match", "subj": to_project_expr(s["subj"]),
                                    "arms": [{"k": "arm", "pat": to_project_pat(a["pat"]),
